@@ -114,7 +114,7 @@ example : FreshC { npre := 4, nsamp := 12, emt := { npre := 4, nsamp := 12, thre
 
 theorem runFull_some (zt : ZT) (hzt : ∀ p, -1 ≤ zt p ∧ zt p ≤ 1) (tp : Nat → Int × Int) (sg : Bool) :
     ∀ (segs : List (List Nat)) (n : Nat) (c : Chan) (first : Int), EmtSafe c →
-      ((c.emt.next = 0 ∧ 0 ≤ first) ∨ (c.emt.next ≠ 0 ∧ first = c.first + c.buf.length)) →
+      ((c.emt.next = 0 ∧ 0 ≤ first - c.buf.length) ∨ (c.emt.next ≠ 0 ∧ first = c.first + c.buf.length)) →
       ∃ r, runFull zt tp sg n c first segs = some r
   | [], n, c, first, _, _ => ⟨_, rfl⟩
   | seg :: segs, n, c, first, hs, hcont => by
@@ -134,7 +134,7 @@ theorem C08_no_oob (zt : ZT) (hzt : ∀ p, -1 ≤ zt p ∧ zt p ≤ 1) (tp : Nat
     (hf0 : 0 ≤ f0) (sg : Bool)
     (c : Chan) (hs : EmtSafe c) (hfresh : c.buf = [] ∧ c.emt.next = 0) (segs : List (List Nat)) :
     ∃ r, runFull zt tp sg n c f0 segs = some r :=
-  runFull_some zt hzt tp sg segs n c f0 hs (Or.inl ⟨hfresh.2, hf0⟩)
+  runFull_some zt hzt tp sg segs n c f0 hs (Or.inl ⟨hfresh.2, by rw [hfresh.1]; simpa using hf0⟩)
 
 /-- **C08, block independence of the RECORDS.**  The real per-channel pipeline (`runFull`: append →
 `TriggerData` → trim, block `n` stamped with any time and period `tp n`) on a freshly configured
@@ -166,7 +166,7 @@ theorem C08_records_block_independent (zt : ZT) (hzt : ∀ p, -1 ≤ zt p) (tp t
 /-- the hypotheses are met by an ordinary configuration -/
 example : EmtSafe { npre := 4, nsamp := 12, ts := { edgeMulti := true },
                     emt := { npre := 4, nsamp := 12, threshold := 100, nmonotone := 1, enableZT := true } } :=
-  ⟨by decide, by decide, fun _ => by decide, rfl, Or.inr rfl, Or.inl ⟨rfl, rfl⟩⟩
+  ⟨by decide, by decide, fun _ => by decide, rfl, Or.inr rfl, Or.inl rfl⟩
 
 /-! ### The same at the level of the whole source -/
 
